@@ -144,7 +144,7 @@ def run_check(P, tier, seed, a):
         stats['by_solver'][r['solver']] = stats['by_solver'].get(r['solver'], 0) + len(b['goals'])
         for gi, (g, ans) in enumerate(zip(b['goals'], r['answers'])):
             stats['queries'] += 1 if ans != 'structural' else 0
-            rec = dict(job=b['job'], path=b['path'], tag=g['tag'], k=g['k'], kind=g['kind'], answer=ans, batch=b, gi=gi)
+            rec = dict(job=b['job'], path=b['path'], tag=g['tag'], k=g['k'], kind=g['kind'], answer=ans, batch=b, gi=gi, raw_model=r.get('raw_model'))
             if g['kind'] == 'witness':
                 if ans == 'sat':
                     stats['witness_ok'] += 1
@@ -173,10 +173,13 @@ def run_check(P, tier, seed, a):
     inconclusive = []
     replay_dir = os.path.join(VERIF, 'replay', pid)
     per_key = {}
+    attempts = {}
     # obligations the solver could not decide but that fail at an explicit point (found by evaluating the terms at the
     # path's witness point): the point is replayed natively; the solver verdict stays 'undecided' in the evidence
     point_refuted = [r for r in stats['undecided'] if r['batch'].get('hint_env')]
-    for rec in stats['sat'] + stats['bits_structural'] + point_refuted:
+    cand = stats['sat'] + stats['bits_structural'] + point_refuted
+    cand.sort(key=lambda r: 0 if r['batch'].get('hint_env') else 1)   # obligations that fail at a known point first
+    for rec in cand:
         job = jobs[rec['job']]
         key = f'{job.get("cls", job["entry"])}|{rec["tag"]}'
         b = rec['batch']
@@ -191,10 +194,17 @@ def run_check(P, tier, seed, a):
             violations.append(dict(key=key, what=f'{rec["tag"]}[{rec["k"]}] is not bit-exact by construction: {b.get("reason")}', job=job,
                                    replay=None, confirmed='structure of the operation tree', rec=rec))
             continue
-        if rec['answer'] not in ('sat', 'structural'):
+        attempts[key] = attempts.get(key, 0) + 1
+        if attempts[key] > MAX_REPLAYS_PER_KEY + 3:
+            if rec['answer'] == 'sat':
+                inconclusive.append(f'{key}[{rec["k"]}]: sat, not replayed (replay budget for this family used up)')
+            continue
+        if b.get('hint_env'):
             env, raw = {k: Fraction(v) for k, v in b['hint_env'].items()}, ''
+        elif rec.get('raw_model') and smt.parse_values(rec['raw_model']):
+            env, raw = smt.parse_values(rec['raw_model']), rec['raw_model']
         else:
-            env, raw = driver.get_model(b, rec['gi'])
+            env, raw = driver.get_model(b, rec['gi'], cap=(b.get('cap') or 60) if quick else 300)
         if env is None:
             inconclusive.append(f'{key}: solver said sat but produced no model')
             continue
